@@ -64,8 +64,20 @@ func VerifC20Expand() {
 		bound = 8
 	}
 	if verifnd.Tier() == 1 && verifnd.Bool() {
-		// a grid that has already grown: fit a first point
-		p0 := Vector3f{symCoordR(bound), 0, symCoordR(bound)}
+		// a grid that has already grown in one of the four diagonal directions (two symbolic points in a row
+		// do not finish: 2 h without a verdict)
+		bound = 4
+		var p0 Vector3f
+		switch verifnd.Choice(4) {
+		case 0:
+			p0 = Vector3f{5, 0, 5}
+		case 1:
+			p0 = Vector3f{-3, 0, 5}
+		case 2:
+			p0 = Vector3f{5, 0, -3}
+		default:
+			p0 = Vector3f{-3, 0, -3}
+		}
 		g.ExpandToFitPoint(&p0)
 		verifnd.Assert(gridDimsOK(g), "C20.expand.dimensions_match_bounds", "first")
 	}
@@ -232,6 +244,34 @@ func VerifC08Ray() {
 	v := oneFree(verifnd.Choice(6), def)
 	g.IntersectQuad(Ray{From: Vector3f{v[0], v[1], v[2]}, To: Vector3f{v[3], v[4], v[5]}})
 	verifnd.Reach("C08.ray.done")
+}
+
+// VerifC08RayVertical: a vertical ground-plane ray (the query a client sends to find the floor under a
+// point) at an arbitrary position — one horizontal coordinate an arbitrary float32 (thorough: both at once) — against a wide
+// grid (1x3 cells), a tall one (3x1) and a square one (3x3): the cell lookup never indexes outside the grid.
+// (The cells hold no plane: the per-plane intersection is pure arithmetic and cannot panic.)
+func VerifC08RayVertical() {
+	g := NewRegularGrid(1, 1, 2)
+	switch verifnd.Choice(3) {
+	case 0:
+		g.ExpandToFitPoint(&Vector3f{5, 0, 0.5})
+	case 1:
+		g.ExpandToFitPoint(&Vector3f{0.5, 0, 5})
+	default:
+		g.ExpandToFitPoint(&Vector3f{5, 0, 5})
+	}
+	x, z := float32(1), float32(1)
+	switch {
+	case verifnd.Tier() == 1:
+		x, z = verifnd.F32(), verifnd.F32()
+	case verifnd.Bool():
+		x = verifnd.F32()
+	default:
+		z = verifnd.F32()
+	}
+	hit, _ := g.IntersectQuad(Ray{From: Vector3f{x, 1, z}, To: Vector3f{x, -1, z}})
+	verifnd.Assert(hit == nil, "C08.ray_vertical.empty_grid_no_hit")
+	verifnd.Reach("C08.ray_vertical.done")
 }
 
 // oneFree returns six coordinates: the one chosen by which is an arbitrary float32 (every bit pattern,
